@@ -8,8 +8,10 @@ package utils
 // valid PromQL syntax tree (a string argument may be wrapped in parentheses).
 //@ func walkAggregation [C02]
 //@   safe type-assert
+//@   assumed callee-requires utils.includeLabel, utils.guaranteeLabel, utils.excludeLabel
 //@ func parsePromQLFunc [C02]
 //@   safe type-assert
+//@   assumed callee-requires utils.includeLabel, utils.guaranteeLabel, utils.excludeLabel
 
 // ---------------------------------------------------------------------------------------------
 // C04 / C12: the label-flow transfer functions. A Source describes which labels the series of one result branch
@@ -25,9 +27,9 @@ package utils
 //@   ensures forall i int :: len(dst) <= i && i < len(result) ==> in(values, result[i])
 //@   ensures forall k int :: 0 <= k && k < len(values) ==> in(result, values[k])
 //@   ensures old(nodup(dst)) ==> nodup(result)
-//@   ensures modifiesOnly(dst) && (cap(dst) == len(dst) ==> modifiesNone(dst))
+//@   ensures appendsOnly(dst) && (cap(dst) == len(dst) ==> modifiesNone(dst))
 //@   ensures sameBase(result, dst) || fresh(result)
-//@   loop 1 invariant 0 <= iter1 && iter1 <= len(values) && modifiesOnly(old(dst)) && (old(cap(dst)) == old(len(dst)) ==> modifiesNone(old(dst)))
+//@   loop 1 invariant 0 <= iter1 && iter1 <= len(values) && appendsOnly(old(dst)) && (old(cap(dst)) == old(len(dst)) ==> modifiesNone(old(dst)))
 //@   loop 1 invariant len(dst) >= old(len(dst)) && (forall k int :: 0 <= k && k < old(len(dst)) ==> dst[k] == old(dst[k]) && old(dst)[k] == old(dst[k]))
 //@   loop 1 invariant forall i int :: old(len(dst)) <= i && i < len(dst) ==> in(values, dst[i])
 //@   loop 1 invariant forall k int :: 0 <= k && k < iter1 ==> in(dst, values[k])
@@ -75,12 +77,15 @@ package utils
 //@ spec func extends(before []string, after []string, add []string) bool = len(after) >= len(before) &&
 //@      (forall k int :: 0 <= k && k < len(before) ==> after[k] == before[k]) &&
 //@      (forall i int :: len(before) <= i && i < len(after) ==> in(add, after[i])) && subset(add, after)
+//@ spec func derived(a []string, b []string) bool = sameBase(a, b) || fresh(a)
+//@ spec func derivedS(r Source, s Source) bool = derived(r.IncludedLabels, s.IncludedLabels) && derived(r.ExcludedLabels, s.ExcludedLabels) && derived(r.GuaranteedLabels, s.GuaranteedLabels)
 //@ spec func sameLists(a Source, b Source) bool = a.IncludedLabels == b.IncludedLabels && a.ExcludedLabels == b.ExcludedLabels && a.GuaranteedLabels == b.GuaranteedLabels
 
 // includeLabel: the names are no longer excluded and are included; guaranteed labels and the fixed flag are untouched.
 //@ func includeLabel [C04,C12]
 //@   option elemlinks
 //@   requires wfS(s) && sepS(s, names)
+//@   ensures derivedS(result, s)
 //@   ensures result.FixedLabels == s.FixedLabels && result.GuaranteedLabels == s.GuaranteedLabels
 //@   ensures nodup(result.IncludedLabels) && nodup(result.ExcludedLabels) && nodup(result.GuaranteedLabels)
 //@   ensures sep(result.IncludedLabels, result.ExcludedLabels) && sep(result.IncludedLabels, result.GuaranteedLabels) && sep(result.ExcludedLabels, result.GuaranteedLabels)
@@ -89,12 +94,13 @@ package utils
 //@   ensures disjoint(result.ExcludedLabels, names)
 //@   ensures keeps(s.ExcludedLabels, result.ExcludedLabels, names)
 //@   ensures extends(s.IncludedLabels, result.IncludedLabels, names)
-//@   ensures modifiesOnly(s.IncludedLabels)
+//@   ensures appendsOnly(s.IncludedLabels)
 
 // guaranteeLabel: as includeLabel, for the guaranteed list.
 //@ func guaranteeLabel [C04,C12]
 //@   option elemlinks
 //@   requires wfS(s) && sepS(s, names)
+//@   ensures derivedS(result, s)
 //@   ensures result.FixedLabels == s.FixedLabels && result.IncludedLabels == s.IncludedLabels
 //@   ensures nodup(result.IncludedLabels) && nodup(result.ExcludedLabels) && nodup(result.GuaranteedLabels)
 //@   ensures sep(result.IncludedLabels, result.ExcludedLabels) && sep(result.IncludedLabels, result.GuaranteedLabels) && sep(result.ExcludedLabels, result.GuaranteedLabels)
@@ -103,12 +109,13 @@ package utils
 //@   ensures disjoint(result.ExcludedLabels, names)
 //@   ensures keeps(s.ExcludedLabels, result.ExcludedLabels, names)
 //@   ensures extends(s.GuaranteedLabels, result.GuaranteedLabels, names)
-//@   ensures modifiesOnly(s.GuaranteedLabels)
+//@   ensures appendsOnly(s.GuaranteedLabels)
 
 // maybeIncludeLabel: nothing is un-excluded; the included list only grows, by names.
 //@ func maybeIncludeLabel [C04,C12]
 //@   option elemlinks
 //@   requires wfS(s) && sepS(s, names)
+//@   ensures derivedS(result, s)
 //@   ensures result.FixedLabels == s.FixedLabels && result.ExcludedLabels == s.ExcludedLabels && result.GuaranteedLabels == s.GuaranteedLabels
 //@   ensures nodup(result.IncludedLabels) && nodup(result.ExcludedLabels) && nodup(result.GuaranteedLabels)
 //@   ensures sep(result.IncludedLabels, result.ExcludedLabels) && sep(result.IncludedLabels, result.GuaranteedLabels) && sepS(result, names)
@@ -116,8 +123,8 @@ package utils
 //@   ensures forall k int :: 0 <= k && k < len(s.IncludedLabels) ==> result.IncludedLabels[k] == s.IncludedLabels[k]
 //@   ensures forall i int :: len(s.IncludedLabels) <= i && i < len(result.IncludedLabels) ==> in(names, result.IncludedLabels[i])
 //@   ensures forall k int :: 0 <= k && k < len(names) && !in(s.ExcludedLabels, names[k]) ==> in(result.IncludedLabels, names[k])
-//@   ensures modifiesOnly(s.IncludedLabels)
-//@   loop 1 invariant 0 <= iter1 && iter1 <= len(names) && modifiesOnly(old(s.IncludedLabels))
+//@   ensures appendsOnly(s.IncludedLabels)
+//@   loop 1 invariant 0 <= iter1 && iter1 <= len(names) && appendsOnly(old(s.IncludedLabels))
 //@   loop 1 invariant s.FixedLabels == old(s.FixedLabels) && s.ExcludedLabels == old(s.ExcludedLabels) && s.GuaranteedLabels == old(s.GuaranteedLabels)
 //@   loop 1 invariant nodup(s.IncludedLabels) && nodup(s.ExcludedLabels) && nodup(s.GuaranteedLabels)
 //@   loop 1 invariant sameBase(s.IncludedLabels, old(s.IncludedLabels)) || fresh(s.IncludedLabels)
@@ -130,6 +137,7 @@ package utils
 //@ func restrictIncludedLabels [C04,C12]
 //@   option elemlinks
 //@   requires wfS(s) && sepS(s, names)
+//@   ensures derivedS(result, s)
 //@   ensures result.FixedLabels == s.FixedLabels && result.ExcludedLabels == s.ExcludedLabels && result.GuaranteedLabels == s.GuaranteedLabels
 //@   ensures nodup(result.IncludedLabels) && nodup(result.ExcludedLabels) && nodup(result.GuaranteedLabels)
 //@   ensures sep(result.IncludedLabels, result.ExcludedLabels) && sep(result.IncludedLabels, result.GuaranteedLabels) && sepS(result, names)
@@ -144,6 +152,7 @@ package utils
 //@ func restrictGuaranteedLabels [C04,C12]
 //@   option elemlinks
 //@   requires wfS(s) && sepS(s, names)
+//@   ensures derivedS(result, s)
 //@   ensures result.FixedLabels == s.FixedLabels && result.ExcludedLabels == s.ExcludedLabels && result.IncludedLabels == s.IncludedLabels
 //@   ensures nodup(result.IncludedLabels) && nodup(result.ExcludedLabels) && nodup(result.GuaranteedLabels)
 //@   ensures sep(result.GuaranteedLabels, result.ExcludedLabels) && sep(result.IncludedLabels, result.GuaranteedLabels) && sepS(result, names)
@@ -159,6 +168,7 @@ package utils
 //@ func excludeLabel [C04,C12]
 //@   option elemlinks
 //@   requires wfS(s) && sepS(s, names)
+//@   ensures derivedS(result, s)
 //@   ensures result.FixedLabels == s.FixedLabels
 //@   ensures nodup(result.IncludedLabels) && nodup(result.ExcludedLabels) && nodup(result.GuaranteedLabels)
 //@   ensures sep(result.IncludedLabels, result.ExcludedLabels) && sep(result.IncludedLabels, result.GuaranteedLabels) && sep(result.ExcludedLabels, result.GuaranteedLabels)
@@ -166,7 +176,7 @@ package utils
 //@   ensures extends(s.ExcludedLabels, result.ExcludedLabels, names)
 //@   ensures subset(result.IncludedLabels, s.IncludedLabels) && disjoint(result.IncludedLabels, names) && keeps(s.IncludedLabels, result.IncludedLabels, names)
 //@   ensures subset(result.GuaranteedLabels, s.GuaranteedLabels) && disjoint(result.GuaranteedLabels, names) && keeps(s.GuaranteedLabels, result.GuaranteedLabels, names)
-//@   ensures modifiesOnly(s.ExcludedLabels)
+//@   ensures appendsOnly(s.ExcludedLabels)
 //@   loop 1 invariant s.FixedLabels == old(s.FixedLabels) && s.IncludedLabels == old(s.IncludedLabels) && s.GuaranteedLabels == old(s.GuaranteedLabels)
 //@   loop 1 invariant nodup(s.ExcludedLabels) && (sameBase(s.ExcludedLabels, old(s.ExcludedLabels)) || fresh(s.ExcludedLabels)) && extends(old(s.ExcludedLabels), s.ExcludedLabels, names)
 
@@ -206,3 +216,52 @@ package utils
 // (empty) contract and write set instead of its body.
 //@ func FindPosition [C04,C12]
 //@   ensures true
+
+// Binary operations between two vectors. What Prometheus does to the labels of the side that survives:
+//   one-to-one  on(L): only L is kept;  ignoring(L): L is dropped, the rest is kept;
+//   group_left / group_right(I): the labels of the "many" side plus I (and, with on(L), L) are possible;
+//   and / or / unless: the left (for `or` also the right) side's labels are kept as they are.
+// Asserted for every source where it is appended to the result; guaranteed labels never grow.
+//@ spec func vmSep(s Source, vm *promParser.VectorMatching) bool = sepS(s, vm.MatchingLabels) && sepS(s, vm.Include)
+//@ func parseBinOps [C04,C12]
+//@   option elemlinks split
+//@   requires n != nil
+//@   ghost r4 []Source
+//@   ghost r6 []Source
+//@   ghost r8 []Source
+//@   ghost r10 []Source
+//@   after call walkNode#4 set r4 = result
+//@   after call walkNode#6 set r6 = result
+//@   after call walkNode#8 set r8 = result
+//@   after call walkNode#10 set r10 = result
+//@   loop 3 assumed invariant forall j int :: iter3 <= j && j < len(r4) ==> wfS(r4[j]) && vmSep(r4[j], n.VectorMatching)
+//@   loop 3 invariant 0 <= iter3 && iter3 <= len(r4) && n == old(n)
+//@   at call append#3 assert n.VectorMatching.On ==> s.FixedLabels && (forall x string :: canHave(s, x) ==> in(n.VectorMatching.MatchingLabels, x))
+//@   at call append#3 assert n.VectorMatching.On ==> (forall x string :: in(n.VectorMatching.MatchingLabels, x) ==> canHave(s, x))
+//@   at call append#3 assert !n.VectorMatching.On ==> (forall x string :: in(n.VectorMatching.MatchingLabels, x) ==> !canHave(s, x))
+//@   at call append#3 assert !n.VectorMatching.On ==> (forall x string :: !in(n.VectorMatching.MatchingLabels, x) && canHave(r4[iter3-1], x) ==> canHave(s, x))
+//@   at call append#3 assert subset(s.GuaranteedLabels, r4[iter3-1].GuaranteedLabels)
+//@   loop 6 assumed invariant forall j int :: iter6 <= j && j < len(r6) ==> wfS(r6[j]) && vmSep(r6[j], n.VectorMatching)
+//@   loop 6 invariant 0 <= iter6 && iter6 <= len(r6) && n == old(n)
+//@   at call append#5 assert s.FixedLabels == r6[iter6-1].FixedLabels && s.GuaranteedLabels == r6[iter6-1].GuaranteedLabels
+//@   at call append#5 assert subset(s.ExcludedLabels, r6[iter6-1].ExcludedLabels)
+//@   at call append#5 assert disjoint(s.ExcludedLabels, n.VectorMatching.Include)
+//@   at call append#5 assert subset(r6[iter6-1].IncludedLabels, s.IncludedLabels)
+//@   at call append#5 assert subset(n.VectorMatching.Include, s.IncludedLabels)
+//@   at call append#5 assert forall x string :: in(n.VectorMatching.Include, x) ==> canHave(s, x)
+//@   at call append#5 assert n.VectorMatching.On ==> (forall x string :: in(n.VectorMatching.MatchingLabels, x) ==> canHave(s, x))
+//@   at call append#5 assert forall x string :: canHave(r6[iter6-1], x) ==> canHave(s, x)
+//@   loop 8 assumed invariant forall j int :: iter8 <= j && j < len(r8) ==> wfS(r8[j]) && vmSep(r8[j], n.VectorMatching)
+//@   loop 8 invariant 0 <= iter8 && iter8 <= len(r8) && n == old(n)
+//@   at call append#7 assert s.FixedLabels == r8[iter8-1].FixedLabels && s.GuaranteedLabels == r8[iter8-1].GuaranteedLabels
+//@   at call append#7 assert subset(s.ExcludedLabels, r8[iter8-1].ExcludedLabels)
+//@   at call append#7 assert disjoint(s.ExcludedLabels, n.VectorMatching.Include)
+//@   at call append#7 assert subset(r8[iter8-1].IncludedLabels, s.IncludedLabels)
+//@   at call append#7 assert subset(n.VectorMatching.Include, s.IncludedLabels)
+//@   at call append#7 assert forall x string :: in(n.VectorMatching.Include, x) ==> canHave(s, x)
+//@   at call append#7 assert n.VectorMatching.On ==> (forall x string :: in(n.VectorMatching.MatchingLabels, x) ==> canHave(s, x))
+//@   at call append#7 assert forall x string :: canHave(r8[iter8-1], x) ==> canHave(s, x)
+//@   loop 10 assumed invariant forall j int :: iter10 <= j && j < len(r10) ==> wfS(r10[j]) && vmSep(r10[j], n.VectorMatching)
+//@   loop 10 invariant 0 <= iter10 && iter10 <= len(r10) && n == old(n)
+//@   at call append#10 assert forall x string :: canHave(r10[iter10-1], x) ==> canHave(s, x)
+//@   at call append#10 assert s.GuaranteedLabels == r10[iter10-1].GuaranteedLabels
